@@ -560,13 +560,150 @@ def gen_other_sites(tree, out, sites):
     out.append('Definition freq_sites : list (Z -> Z -> Z) := [' + '; '.join(freqs) + '].\n')
 
 
+# ------------------------------------------------------------------------------------------ P_n and its ingredients
+PN_SKELETON = """
+sum = dtype(0.0)
+for k in range(__RANGE__):
+    factor = dtype(__FACTOR__)
+    if __EVEN__:
+        sum += factor * x ** dtype(0.5 * (__TWICE_EXP__))
+    else:
+        sum -= factor * x ** dtype(0.5 * (__TWICE_EXP__))
+sum *= dtype(0.5 ** n)
+return sum
+"""
+FACT_BODY = """
+if __GUARD__:
+    raise ValueError
+factorial = FACTORIAL_LOOKUP_TABLE[n]
+return factorial
+"""
+CHOOSE_BODY = """
+x = factorial(n) // (factorial(k) * factorial(n - k))
+return x
+"""
+
+
+def _nodoc(fn):
+    return [s for s in fn.body if kind_of(s) != 'doc']
+
+
+def _same(fn, want, site):
+    have = [ast.unparse(s) for s in _nodoc(fn)]
+    exp = [ast.unparse(s) for s in ast.parse(want).body]
+    if have != exp:
+        for k, (a, b) in enumerate(zip(have + [''] * len(exp), exp + [''] * len(have))):
+            if a != b:
+                raise TE(f'site {site}: statement {k} is `{a[:100]}`, expected `{b[:100]}`')
+
+
+def gen_pn(tree, out, sites):
+    """The Legendre weights of the multipoles: the factorial table, factorial, n_choose_k and the loop of P_n.  The loop
+    skeleton is compared textually; the range, the integer factor, the parity test and twice the exponent of x (= the
+    exponent of mu, x = mu^2) are translated."""
+    tab = [s for s in tree.body if isinstance(s, ast.Assign) and len(s.targets) == 1
+           and is_name(s.targets[0], 'FACTORIAL_LOOKUP_TABLE')]
+    if len(tab) != 1:
+        raise TE('site FACTORIAL_LOOKUP_TABLE: expected exactly one module-level assignment')
+    v = tab[0].value
+    ok = (is_call(v, 'np.array') and len(v.args) == 1 and isinstance(v.args[0], ast.List)
+          and all(isinstance(e, ast.Constant) and isinstance(e.value, int) and not isinstance(e.value, bool) for e in v.args[0].elts)
+          and [ast.unparse(k.value) for k in v.keywords if k.arg == 'dtype'] == ['np.int64'])
+    if not ok:
+        raise TE('site FACTORIAL_LOOKUP_TABLE: not np.array([<integer literals>], dtype=np.int64)')
+    vals = [e.value for e in v.args[0].elts]
+    out.append('Definition gen_fact_table : list Z := [' + '; '.join(f'{x}%Z' for x in vals) + '].\n')
+    # factorial
+    fn = py2v.find_function(tree, 'factorial')
+    body = _nodoc(fn)
+    if not (body and isinstance(body[0], ast.If)):
+        raise TE('site factorial: expected the range guard first')
+    guard, ty = tr(body[0].test, {'n': 'Z'}, 'factorial:guard')
+    if ty != 'B':
+        raise TE('site factorial:guard: not a boolean expression')
+    _same(fn, FACT_BODY.replace('__GUARD__', ast.unparse(body[0].test)), 'factorial')
+    out.append(defn('gen_fact_guard', [('n', 'Z')], 'bool', guard))
+    _same(py2v.find_function(tree, 'n_choose_k'), CHOOSE_BODY, 'n_choose_k')
+    # P_n
+    fn = py2v.find_function(tree, 'P_n')
+    if [a.arg for a in fn.args.args] != ['x', 'n', 'dtype']:
+        raise TE('site P_n: parameters changed')
+    body = _nodoc(fn)
+    if not (len(body) == 4 and isinstance(body[1], ast.For) and is_call(body[1].iter, 'range') and len(body[1].iter.args) == 1
+            and is_name(body[1].target, 'k') and len(body[1].body) == 2 and isinstance(body[1].body[1], ast.If)):
+        raise TE('site P_n: the loop changed shape')
+    rng_e = body[1].iter.args[0]
+    fac_s, cond = body[1].body[0], body[1].body[1]
+    if not (isinstance(fac_s, ast.Assign) and is_name(fac_s.targets[0], 'factor')):
+        raise TE('site P_n:factor: expected `factor = dtype(...)`')
+    fac_e = strip_dtype(fac_s.value, 'P_n:factor')
+
+    def twice_exp(stmt):
+        # sum (+|-)= factor * x ** dtype(0.5 * (E))
+        if not (isinstance(stmt, ast.AugAssign) and isinstance(stmt.value, ast.BinOp) and isinstance(stmt.value.op, ast.Mult)
+                and isinstance(stmt.value.right, ast.BinOp) and isinstance(stmt.value.right.op, ast.Pow)):
+            raise TE('site P_n:exponent: unexpected accumulation')
+        e = stmt.value.right.right
+        e = e.args[0] if isinstance(e, ast.Call) and is_name(e.func, 'dtype') and len(e.args) == 1 else e
+        if not (isinstance(e, ast.BinOp) and isinstance(e.op, ast.Mult) and isinstance(e.left, ast.Constant) and e.left.value == 0.5):
+            raise TE('site P_n:exponent: not 0.5 * (<integer expression>)')
+        return e.right
+    te1, te2 = twice_exp(cond.body[0]), twice_exp(cond.orelse[0])
+    if ast.unparse(te1) != ast.unparse(te2):
+        raise TE('site P_n:exponent: the two branches use different exponents')
+    want = (PN_SKELETON.replace('__RANGE__', ast.unparse(rng_e)).replace('__FACTOR__', ast.unparse(fac_e))
+            .replace('__EVEN__', ast.unparse(cond.test)).replace('__TWICE_EXP__', ast.unparse(te1)))
+    _same(fn, want, 'P_n')
+    r_t, ty = tr(rng_e, {'n': 'Z'}, 'P_n:range')
+    e_t, ty2 = tr(te1, {'n': 'Z', 'k': 'Z'}, 'P_n:exponent')
+    c_t, ty3 = tr(cond.test, {'k': 'Z'}, 'P_n:parity')
+    if (ty, ty2, ty3) != ('Z', 'Z', 'B'):
+        raise TE('site P_n: range / exponent / parity have unexpected types')
+    # the integer factor: n_choose_k(a, b) -> gen_choose a b
+    f2, hits = copy.deepcopy(fac_e), []
+
+    class C(ast.NodeTransformer):
+        def visit_Call(self, node):
+            self.generic_visit(node)
+            if is_name(node.func, 'n_choose_k') and len(node.args) == 2 and not node.keywords:
+                hits.append(node)
+                a, _ = tr(node.args[0], {'n': 'Z', 'k': 'Z'}, 'P_n:factor')
+                b, _ = tr(node.args[1], {'n': 'Z', 'k': 'Z'}, 'P_n:factor')
+                return ast.copy_location(ast.Name(id=f'@@CH{len(hits) - 1}', ctx=ast.Load()), node)
+            return node
+    f2 = ast.fix_missing_locations(C().visit(f2))
+    if len(hits) != 2:
+        raise TE('site P_n:factor: expected a product of two n_choose_k calls')
+    env = {'n': 'Z', 'k': 'Z', '@@CH0': 'Z', '@@CH1': 'Z'}
+    # translate with placeholders c0, c1 then substitute
+    f3 = ast.parse(ast.unparse(f2).replace('@@CH0', 'c0').replace('@@CH1', 'c1'), mode='eval').body
+    f_t, tyf = tr(f3, {'n': 'Z', 'k': 'Z', 'c0': 'Z', 'c1': 'Z'}, 'P_n:factor')
+    if tyf != 'Z':
+        raise TE('site P_n:factor: not an integer expression')
+    args = []
+    for h in hits:
+        a, _ = tr(h.args[0], {'n': 'Z', 'k': 'Z'}, 'P_n:factor')
+        b, _ = tr(h.args[1], {'n': 'Z', 'k': 'Z'}, 'P_n:factor')
+        args.append((a, b))
+    out.append('Definition gen_choose (n k : Z) : Z :=\n  (nth (Z.to_nat n) gen_fact_table 0 / (nth (Z.to_nat k) gen_fact_table 0 * '
+               'nth (Z.to_nat (n - k)) gen_fact_table 0))%Z.\n')
+    out.append(defn('gen_pn_range', [('n', 'Z')], 'Z', r_t))
+    out.append(defn('gen_pn_twice_exp', [('n', 'Z'), ('k', 'Z')], 'Z', e_t))
+    out.append(defn('gen_pn_even', [('k', 'Z')], 'bool', c_t))
+    out.append(f'Definition gen_pn_factor (n k : Z) : Z :=\n  let c0 := gen_choose ({args[0][0]}) ({args[0][1]}) in '
+               f'let c1 := gen_choose ({args[1][0]}) ({args[1][1]}) in {f_t}.\n')
+    sites += ['FACTORIAL_LOOKUP_TABLE', 'factorial', 'n_choose_k', 'P_n:skeleton', 'P_n:range', 'P_n:factor', 'P_n:parity',
+              'P_n:exponent']
+
+
 def generate(repo):
     src, sha, tree = parse(repo, REL)
     out, sites = [], []
+    gen_pn(tree, out, sites)
     gen_kmu(tree, out, sites)
     gen_kppi(tree, out, sites)
     gen_other_sites(tree, out, sites)
-    text = py2v.header(REL, sha, sites) + 'From Coq Require Import String.\nFrom Abacus.C08 Require Import Parts.\n\n' + '\n'.join(out)
+    text = py2v.header(REL, sha, sites) + 'From Coq Require Import String List.\nImport ListNotations.\nFrom Abacus.C08 Require Import Parts.\n\n' + '\n'.join(out)
     meta = {'source': REL, 'sha256': sha, 'sites': sites,
             'normalisations': ['dtype(<integral float literal>) -> integer literal', 'x ** -1 -> 1.0 / x',
                                'weights[i, j, k], np.sqrt(kmag2), edges[...] -> variable (index checked/emitted separately)',
